@@ -1,4 +1,4 @@
-// C11 — sub `main_runner`: the real tbox::main::Main() (front-end runner) in a forked child.
+// C11 — sub `main_runner`: the real tbox::main::Main() (front-end runner) and Start()/Stop() (back-end runner) in a child process.
 // The harness supplies RegisterApps() building the generated tree below Main()'s own `apps` module, a task queued
 // on the context's loop raises SIGTERM at the process once the loop runs (i.e. after apps.start() succeeded), every
 // hook event is streamed to the parent through a pipe, and the parent applies the same invariants as sub `tree`
@@ -8,6 +8,7 @@
 #include <tbox/main/main.h>
 #include <tbox/event/loop.h>
 #include <poll.h>
+#include <spawn.h>
 #include <dirent.h>
 #include <sys/wait.h>
 #include <time.h>
@@ -19,6 +20,7 @@ namespace {
 enum { NODE, BACKEND, NOPS };
 const int kMaxNodes = 12, kMaxDepth = 4;
 const long kBudgetMs = 30000;
+const int kChildEventFd = 100, kChildScenarioFd = 101;
 const unsigned char kMarkRunLoop = 100, kMarkReturned = 101;   // pseudo "kinds" in the event stream (node byte = 0)
 
 TreeSpec *g_spec = nullptr;    // child only
@@ -93,13 +95,8 @@ long cpu_ticks(pid_t pid) {
 }
 
 [[noreturn]] void child_main(const TreeSpec &t, bool backend, int wfd) {
-  // neutralise the parent's crash bookkeeping in the child
-  rt().in_case = false; rt().out_path.clear();
+  rt().in_case = false; rt().out_path.clear();    // a dying child must not write case files / statistics
   signal(SIGABRT, SIG_DFL); signal(SIGALRM, SIG_DFL);
-  if (!getenv("C11_MAIN_VERBOSE")) {
-    int nul = ::open("/dev/null", O_WRONLY);
-    if (nul >= 0) { dup2(nul, 1); dup2(nul, 2); if (nul > 2) close(nul); }
-  }
   static World w; w.out_fd = wfd;
   static TreeSpec spec = t;
   g_world = &w; g_spec = &spec; g_backend = backend;
@@ -126,19 +123,41 @@ std::string run_main(const Scenario &s, CaseInfo &info) {
   TreeSpec t;
   bool backend = false;
   decode_spec(s, t, backend);
-  int pfd[2];
+  // The child is a FRESH process (posix_spawn of this binary, sub `main_child`, scenario through a pipe): a plain
+  // fork() of the ASan-instrumented rapidcheck process occasionally left the child's ASan allocator dead-locked
+  // (thread start inside the sanitizer runtime waiting for an allocator mutex nobody holds) - a harness artefact.
+  int pfd[2], sfd[2];
   if (pipe(pfd) != 0) return "HARNESS: pipe() failed";
+  if (pipe(sfd) != 0) { close(pfd[0]); close(pfd[1]); return "HARNESS: pipe() failed"; }
+  {
+    std::string text = to_text(*find_sub("main_runner"), s);
+    if (text.size() > 60000) text.resize(60000);       // fits the pipe buffer: written before the child exists
+    ssize_t n = ::write(sfd[1], text.data(), text.size()); (void)n;
+    close(sfd[1]);
+  }
   fflush(stdout); fflush(stderr);
-  pid_t pid = fork();
-  if (pid < 0) { close(pfd[0]); close(pfd[1]); return "HARNESS: fork() failed"; }
-  if (pid == 0) { close(pfd[0]); child_main(t, backend, pfd[1]); }
+  pid_t pid = -1;
+  {
+    posix_spawn_file_actions_t fa; posix_spawn_file_actions_init(&fa);
+    bool verbose = getenv("C11_MAIN_VERBOSE") != nullptr;
+    if (!verbose) { posix_spawn_file_actions_addopen(&fa, 1, "/dev/null", O_WRONLY, 0); posix_spawn_file_actions_addopen(&fa, 2, "/dev/null", O_WRONLY, 0); }
+    // pfd[1] -> 100 (events), sfd[0] -> 101 (scenario text): far above the pipe fds, so the dup2 targets cannot collide
+    posix_spawn_file_actions_adddup2(&fa, pfd[1], kChildEventFd);
+    posix_spawn_file_actions_adddup2(&fa, sfd[0], kChildScenarioFd);
+    for (int fd : {pfd[0], pfd[1], sfd[0]}) posix_spawn_file_actions_addclose(&fa, fd);   // all < 100
+    const char *argv[] = {"c11_main_child", "--sub", "main_child", "--replay", "/dev/fd/101", nullptr};
+    int rc = posix_spawn(&pid, "/proc/self/exe", &fa, nullptr, const_cast<char *const *>(argv), environ);
+    posix_spawn_file_actions_destroy(&fa);
+    close(sfd[0]);
+    if (rc != 0) { close(pfd[0]); close(pfd[1]); return "HARNESS: posix_spawn() failed"; }
+  }
   close(pfd[1]);
 
   // read the event stream until EOF, 30 s budget (a case takes ~50 ms)
   std::vector<unsigned char> bytes;
   struct timespec t0; clock_gettime(CLOCK_MONOTONIC, &t0);
   bool timed_out = false;
-  int extensions = 0; bool gave_up = false; std::string stuck_threads;
+  int extensions = 0; bool gave_up = false; std::string stuck_threads, stack_file;
   for (;;) {
     struct timespec now; clock_gettime(CLOCK_MONOTONIC, &now);
     long left = kBudgetMs - ((now.tv_sec - t0.tv_sec) * 1000 + (now.tv_nsec - t0.tv_nsec) / 1000000);
@@ -174,10 +193,10 @@ std::string run_main(const Scenario &s, CaseInfo &info) {
     return "";
   }
   if (timed_out) {
-    if (getenv("C11_MAIN_DEBUG_HANG")) {   // debugging aid: show where the child is stuck
-      std::string cmd = "gdb -p " + std::to_string((int)pid) + " -batch -ex 'thread apply all bt' 2>&1 | tail -150 1>&2";
-      int r = system(cmd.c_str()); (void)r;
-    }
+    // diagnosis aid: user-space stacks of the blocked child (best effort, needs gdb)
+    stack_file = rt().replay_dir + "/hang-stacks-" + std::to_string((int)pid) + ".txt";
+    std::string cmd = "gdb -p " + std::to_string((int)pid) + " -batch -ex 'thread apply all bt 14' > " + stack_file + " 2>&1 < /dev/null";
+    int r = system(cmd.c_str()); (void)r;
     kill(pid, SIGKILL);
   }
   int status = 0;
@@ -215,7 +234,7 @@ std::string run_main(const Scenario &s, CaseInfo &info) {
   if (init_failed || start_failed) info.nontrivial = true;
   (void)any_start;
 
-  if (timed_out) return std::string(backend ? "Start()/Stop()" : "Main()") + " did not return within 30 s and is blocked (threads tid:state:wchan = " + stuck_threads + ")" + (err.empty() ? std::string() : " (" + err + ")");
+  if (timed_out) return std::string(backend ? "Start()/Stop()" : "Main()") + " did not return within 30 s and is blocked (threads tid:state:wchan = " + stuck_threads + "; stacks: " + stack_file + ")" + (err.empty() ? std::string() : " (" + err + ")");
   if (WIFSIGNALED(status)) return "the process running Main() was killed by signal " + std::to_string(WTERMSIG(status)) + (err.empty() ? std::string() : " (" + err + ")");
   if (WIFEXITED(status) && WEXITSTATUS(status) == 9) return "HARNESS: RegisterApps could not build the tree";
   if (WIFEXITED(status) && WEXITSTATUS(status) != 0) return "the process running Main() exited with status " + std::to_string(WEXITSTATUS(status)) + (err.empty() ? std::string() : " (" + err + ")");
@@ -248,6 +267,24 @@ SubDef def_main = [] {
   return d;
 }();
 VERIF_REGISTER(&def_main);
+
+// internal: what the spawned child executes ("--sub main_child --replay /dev/fd/101", events to fd 100); never returns
+SubDef def_child = [] {
+  SubDef d; d.name = "main_child";
+  d.op_names = {"node", "backend"};
+  d.op_arity = {5, 0};
+  d.nt_rule = "internal";
+  d.run = [](const Scenario &s, CaseInfo &) -> std::string {
+    TreeSpec t; bool backend = false;
+    decode_spec(s, t, backend);
+    child_main(t, backend, kChildEventFd);
+  };
+#ifndef VERIF_ENGINE_FUZZ
+  d.gen = [] { return rc::gen::just(Scenario()); };
+#endif
+  return d;
+}();
+VERIF_REGISTER(&def_child);
 }  // namespace
 
 // ---- what the application developer provides to the framework -------------------------------------------------
